@@ -285,6 +285,14 @@ theorem signedResp_facts (req : Bytes) (p : Nat) (sc : Spec.Server.Scan) (rc : N
   · cases sc.question <;> simp
   · cases sc.edns <;> simp
 
+/-- what precedes the TSIG record satisfies the documented precondition of `sign_response`
+    (a full header whose ARCOUNT counts the TSIG record) -/
+theorem signedPrefix_msgOk (req : Bytes) (p : Nat) (sc : Spec.Server.Scan) (rc : Nat) :
+    Tsig.MsgOk (signedPrefix req p sc rc) := by
+  unfold Tsig.MsgOk signedPrefix Spec.Tsig.field16
+  refine ⟨by simp, ?_⟩
+  cases sc.edns <;> simp
+
 /-! ### `handle_message` on authenticated requests that get a no-data response -/
 
 theorem specScanWith_respond (lookup : List UInt8 → Nat → Option Spec.Server.ZoneKind) (S : Nat) (req : Bytes)
